@@ -72,12 +72,12 @@ Exact == LinExact \o KnotExact(SCub) \o KnotExact(SAki) \o KnotExact(SCubP) \o K
 
 \* ---- relations -------------------------------------------------------------------
 Rels ==
-  PieceRelations(SLin, K, 1, FALSE)
-  \o (IF SCub # 0 THEN PieceRelations(SCub, K, 3, TRUE) \o NaturalEnds(SCub, K) ELSE <<>>)
-  \o (IF SAki # 0 THEN PieceRelations(SAki, K, 3, TRUE) ELSE <<>>)
-  \o (IF SCubP # 0 THEN PieceRelations(SCubP, K, 3, TRUE)
+  PieceRelations(SLin, K, 1, FALSE) \o ExtrapRelations(SLin, K, 1)
+  \o (IF SCub # 0 THEN PieceRelations(SCub, K, 3, TRUE) \o NaturalEnds(SCub, K) \o ExtrapRelations(SCub, K, 3) ELSE <<>>)
+  \o (IF SAki # 0 THEN PieceRelations(SAki, K, 3, TRUE) \o ExtrapRelations(SAki, K, 3) ELSE <<>>)
+  \o (IF SCubP # 0 THEN PieceRelations(SCubP, K, 3, TRUE) \o ExtrapRelations(SCubP, K, 3)
                         \o <<PeriodicValue(SCubP, K), PeriodicSlope(SCubP, K), PeriodicCurv(SCubP, K)>> ELSE <<>>)
-  \o (IF SAkiP # 0 THEN PieceRelations(SAkiP, K, 3, TRUE)
+  \o (IF SAkiP # 0 THEN PieceRelations(SAkiP, K, 3, TRUE) \o ExtrapRelations(SAkiP, K, 3)
                         \o <<PeriodicValue(SAkiP, K), PeriodicSlope(SAkiP, K)>> ELSE <<>>)
 
 \* ---- what TLC checks ---------------------------------------------------------------
@@ -88,8 +88,17 @@ Theorems == ph = 1 =>
       rels == Rels
   IN  /\ IsGrid(K)
       /\ \A j \in 1..Len(pts) : IntervalTheorems(K, pts[j]) /\ LinTheorems(K, Y, pts[j])
-      \* well-formedness: every relation stays inside the grid
-      /\ \A j \in 1..Len(rels) : \A t \in 1..Len(rels[j].t) : rels[j].t[t][4] \in K[1]..K[N]
+      \* well-formedness: every relation stays inside the grid, or entirely in ONE extrapolation region
+      /\ \A j \in 1..Len(rels) :
+            LET P == {rels[j].t[t][4] : t \in 1..Len(rels[j].t)} IN
+            \/ \A r \in P : r \in K[1]..K[N]
+            \/ \A r \in P : r < K[1]
+            \/ \A r \in P : r > K[N]
+      \* the linear model satisfies the extrapolation identities (value/derivative consistent outside)
+      /\ \A x \in {K[1] - 4 * Quarter(K, 0), K[N] + Quarter(K, N - 2)} :
+            LET d == IF x < K[1] THEN Quarter(K, 0) ELSE Quarter(K, N - 2) IN
+            (LinValue(K, Y, x + d)[1] - LinValue(K, Y, x)[1]) * LinDeriv(K, Y, x)[2]
+               = d * LinDeriv(K, Y, x)[1] * LinValue(K, Y, x)[2]
 
 Vector == (Emit /\ ph = 1) =>
   PrintT(ToJson([fam |-> "eval", data |-> <<[k |-> K, y |-> Y]>>, inst |-> Insts, exact |-> CompactExact(Exact), rel |-> CompactRels(Rels)]))
